@@ -169,7 +169,7 @@ type c19fndScn struct {
 	nsess int    // the topic state shows the public queries of sessions 1..nsess
 	anon  bool   // "anon" scenario: level-10 sessions get their level from the real code
 	token []byte // of the {acc} reply
-	real  map[int]bool
+	real  map[int]auth.Level // sessions logged in by the real code -> the level it gave them
 }
 
 // a session reference of a request: <id> or <id>l<level>
@@ -268,14 +268,17 @@ func (sc *c19fndScn) sessionAt(ref string) (int, *vSess) {
 	if !ok {
 		if sc.anon && lvl == auth.LevelAnon {
 			vs = sc.anonLoginC19(i)
-			sc.real[i] = true
+			sc.real[i] = vs.s.authLvl
 		} else {
 			vs = vNewSession(500+i, sc.uid, lvl)
 		}
 		vs.s.countryCode = sc.cc
 		sc.sess[i] = vs
 	}
-	if !(sc.real[i] && lvl == auth.LevelAnon) {
+	if given, ok := sc.real[i]; ok && lvl == auth.LevelAnon {
+		// (again) the level which the real login assigned, whatever was assigned directly in between
+		vs.s.authLvl = given
+	} else {
 		vs.s.authLvl = lvl
 	}
 	return i, vs
@@ -484,7 +487,7 @@ func c19fndRun(w []string) string {
 	c19fndSetup()
 	memverif.Reset()
 	globals.maskedTagNS = c19NS(w[1])
-	sc := &c19fndScn{sess: map[int]*vSess{}, real: map[int]bool{}, cc: c19fndCC(w[3]), nsess: c19fndMaxSessC19(w[5]),
+	sc := &c19fndScn{sess: map[int]*vSess{}, real: map[int]auth.Level{}, cc: c19fndCC(w[3]), nsess: c19fndMaxSessC19(w[5]),
 		anon: len(w) == 7 && w[6] == "anon"}
 	// the searching user
 	if sc.anon {
